@@ -27,6 +27,12 @@ lazy_static! {
     static ref EPOCH: Instant = Instant::now();
 }
 
+/// Returns the rounding baseline (verification hook).
+#[cfg(deltio_verif)]
+pub fn verif_epoch() -> Instant {
+    *EPOCH
+}
+
 /// Represents the deadline by which a message should be acked before it is considered expired.
 ///
 /// These are rounded up to the nearest 10th of a second in order to capture as many expirations
